@@ -112,6 +112,10 @@ def check(run):
         failed_all += failed
     if D.canary(run, "generation/duplicate_checker.py", "main", (lambda: c_dupcheck.extras_region_contract(True))) is False:
         raise RuntimeError("canary verified: engine vacuous on the canonicalisation region")
+    # do_sympy: every pass that rewrites functions leaves its round files and is counted (what the round-combination contract of duplicate_checker.main combines)
+    from contracts import c_dosympy as _cds
+    rlfailed = D.structural_generic(run, ["generation/simplifier.py"], _cds.round_loop_obligations, "contracts.c_dosympy (AST analysis)",
+                                    "no pass of do_sympy is left before its round files are written; the number of rounds handed back counts every pass")
     # the literal substitution tables of sympy_simplify: every row is sound (same family of curves / the recorded map reproduces the replacement)
     tfailed, tunsupported = D.subst_tables(run)
     lfailed0 = D.prove_lemmas(run, "do_sympy: composition with get_unique_indexes", c_dosympy.composition_lemma(), timeout_ms=20000)
@@ -141,5 +145,6 @@ def check(run):
         from checks.C14 import report_unproved
         report_unproved(run, failed_all, False, failed_all[0].fn)
     D.report_subst_tables(run, tfailed, tunsupported)
+    D.report_structural(run, rlfailed, "rounds", "contracts/c_dosympy.py round_loop_obligations")
     return run.finish("other", META["text"], CHECKER,
                       rule="cases = functions whose match/map was checked; distinct_nontrivial = functions with a non-empty recorded map")
